@@ -137,7 +137,7 @@ def run(tier):
         "V8 (node 20) as reference for the printed results"]
     chk.assumptions = ["compiler acceptance is a fact about the compilers in the image (gcc 12.2, clang 14, x86-64 LE); it is tested over the matrix, not proved",
                        "forced big-endian builds are C19's subject"]
-    pr = ec.prove_if_present(chk, ["C11"])
+    pr = ec.prove_if_present(chk, ["C11", "C11Ops"])
     broken = list(pr["errors"])
     n = {"quick": {"int": 40, "float": 40, "control": 60, "memory": 40},
          "thorough": {"int": 100, "float": 100, "control": 160, "memory": 100, "calls": 40, "init": 40}}[tier]
